@@ -32,10 +32,12 @@ Q_WORDS = gen.Q_WORDS
 def doc_spellings(c):
     if c in gen.HALVES:
         w = HALF_WORD[c]
-        return [c + '½', c + '/2', c + '2', c + '1/2', c + ' 1/2', w + ' Half', w + ' One Half']
+        return [c + '½', c + '/2', c + '2', c + '1/2', c + ' 1/2', w + ' Half', w + ' One Half',
+                c + ' 2', c + ' /2', c + ' / 2']          # "with or without spaces" (rgxlib/aliquots.py `_form`)
     a, b = Q_WORDS[c]
     return [c + '¼', c + '/4', c + '4', c + '1/4', c + ' 1/4', a + b.lower() + ' Quarter', a + ' ' + b + ' Quarter',
-            a + ' ' + b + ' One Quarter', a + b.lower() + ' One Quarter']
+            a + ' ' + b + ' One Quarter', a + b.lower() + ' One Quarter',
+            c + ' 4', c + ' /4', c + ' / 4']
 
 
 JOIN = ['', ' ', ' of ', ' of the ']
